@@ -471,7 +471,7 @@ func (g *genCtx) genBlock(k int, shape int) []*wire.MsgTx {
 		tx := wire.NewMsgTx(1)
 		nout := 1 + r.Intn(3)
 		for j := 0; j < nout; j++ {
-			tx.AddTxOut(wire.NewTxOut(int64(i*10+j), g.outScript(), wire.TokenData{}))
+			tx.AddTxOut(wire.NewTxOut(int64(j), g.outScript(), wire.TokenData{})) // value = output index: parseTx rebuilds exactly this
 		}
 		nin := 1 + r.Intn(2)
 		for j := 0; j < nin; j++ {
@@ -564,6 +564,9 @@ func fmtTxs(txs []*wire.MsgTx) string {
 	s := []string{}
 	for _, t := range txs {
 		s = append(s, fmtTx(t))
+		if parseTx(fmtTx(t)).TxHash() != t.TxHash() {
+			panic("harness: case line does not reproduce the transaction (spend links would be lost)")
+		}
 	}
 	return joinOr(s, "|")
 }
@@ -589,6 +592,58 @@ func genC10(r *Rng, tier string, emit func(Case)) {
 		e("blk", []string{"topo", "reverse", "ctor", "random"}[mode]+":shape"+itoa(shape), fa[0], fa[1], fa[2], fa[3], fmtTxs(blk))
 	}
 	e("blk", "empty", "00", "1", "0", "1", "-")
+	// directed: a parent whose output of each script class matches the filter through its pushed data, a child
+	// that spends exactly that output and matches in no other way, a grandchild spending the child; every
+	// update flag; child placed before / after the parent
+	nd := 2
+	if tier == "thorough" {
+		nd = 40
+	}
+	for rep := 0; rep < nd; rep++ {
+		for flags := 0; flags < 3; flags++ {
+			for cls := 0; cls < 4; cls++ {
+				for mode := 0; mode < 3; mode++ {
+					key := r.Bytes(33)
+					key[0] = 2
+					h20 := r.Bytes(20)
+					var sc []byte
+					var elem []byte
+					switch cls {
+					case 0:
+						sc, elem = p2pk(key), key
+					case 1:
+						k2 := r.Bytes(33)
+						k2[0] = 3
+						sc, elem = multisig(k2, key), key
+					case 2:
+						sc, elem = p2pkh(h20), h20
+					case 3:
+						sc, elem = p2sh(h20), h20
+					}
+					parent := wire.NewMsgTx(1)
+					parent.AddTxIn(wire.NewTxIn(&wire.OutPoint{Hash: *mkHash(r.Bytes(32)), Index: 7}, pushOnly(r.Bytes(70))))
+					parent.AddTxOut(wire.NewTxOut(0, p2pkh(r.Bytes(20)), wire.TokenData{}))
+					parent.AddTxOut(wire.NewTxOut(1, sc, wire.TokenData{}))
+					ph := parent.TxHash()
+					child := wire.NewMsgTx(1)
+					child.AddTxIn(wire.NewTxIn(&wire.OutPoint{Hash: ph, Index: 1}, pushOnly(r.Bytes(71))))
+					child.AddTxOut(wire.NewTxOut(0, p2pkh(r.Bytes(20)), wire.TokenData{}))
+					ch := child.TxHash()
+					grand := wire.NewMsgTx(1)
+					grand.AddTxIn(wire.NewTxIn(&wire.OutPoint{Hash: ch, Index: 0}, pushOnly(r.Bytes(71))))
+					grand.AddTxOut(wire.NewTxOut(0, p2sh(r.Bytes(20)), wire.TokenData{}))
+					other := wire.NewMsgTx(1)
+					other.AddTxIn(wire.NewTxIn(&wire.OutPoint{Hash: ph, Index: 0}, pushOnly(r.Bytes(71))))
+					other.AddTxOut(wire.NewTxOut(0, p2pkh(r.Bytes(20)), wire.TokenData{}))
+					f := bloom.LoadFilter(wire.NewMsgFilterLoad(make([]byte, 256), 5, uint32(r.U64()), wire.BloomUpdateType(flags)))
+					f.Add(elem)
+					fa := []string{hx(f.MsgFilterLoad().Filter), "5", u64s(uint64(f.MsgFilterLoad().Tweak)), itoa(flags)}
+					txs := []*wire.MsgTx{parent, child, grand, other}
+					e("blk", "spend:"+[]string{"p2pk", "multisig", "p2pkh", "p2sh"}[cls]+":f"+itoa(flags), fa[0], fa[1], fa[2], fa[3], fmtTxs(order(r, txs, []int{0, 1, 3}[mode])))
+				}
+			}
+		}
+	}
 	// chains in which every transaction spends two outputs of its parent: the shape on which the
 	// unrepaired scan was exponential (known_findings: fixed C08/C10 scan)
 	nc := 30
@@ -606,7 +661,7 @@ func genC10(r *Rng, tier string, emit func(Case)) {
 		for j := 0; j < k; j++ {
 			tx := wire.NewMsgTx(1)
 			for o := 0; o < 2+r.Intn(2); o++ {
-				tx.AddTxOut(wire.NewTxOut(int64(j*10+o), g.outScript(), wire.TokenData{}))
+				tx.AddTxOut(wire.NewTxOut(int64(o), g.outScript(), wire.TokenData{}))
 			}
 			if j == 0 {
 				tx.AddTxIn(wire.NewTxIn(&wire.OutPoint{Hash: *mkHash(r.Bytes(32)), Index: 0}, g.sigScript()))
